@@ -50,10 +50,23 @@ pub fn snapshot_opt(p: &Airplanes, views: bool) -> Snapshot {
         if let Some(t) = &st.track {
             r.track = t.iter().filter_map(|c| c.position.map(|q| (q.latitude, q.longitude))).collect();
         }
-        r.details = p.aircraft_details(*k).map(|d| ObsDetails { position: (d.position.latitude, d.position.longitude), altitude: u32::from(d.altitude), distance: d.kilo_distance, heading: d.heading.map(f64::from) });
+        let det = p.aircraft_details(*k);
+        r.details = det.as_ref().map(|d| ObsDetails { position: (d.position.latitude, d.position.longitude), altitude: u32::from(d.altitude), distance: d.kilo_distance, heading: d.heading.map(f64::from) });
+        r.details_track = det.as_ref().map(|d| d.track.as_ref().map_or(vec![], |t| t.iter().filter_map(|c| c.position.map(|q| (q.latitude, q.longitude))).collect()));
         if views {
             r.in_all_position = allpos.iter().find(|(i, _)| i == k).map(|(_, q)| (q.latitude, q.longitude));
-            r.in_display = text.lines().any(|l| l.starts_with(&format!("{k}: ")));
+            let prefix = format!("{k}: ");
+            let line = text.lines().find(|l| l.starts_with(&prefix));
+            r.in_display = line.is_some();
+            if let (Some(l), Some(d)) = (line, det.as_ref()) {
+                // the text view is one line per aircraft with details: address, then the details
+                if l[prefix.len()..] != format!("{d:?}") {
+                    r.display_mismatch = Some(l.chars().take(300).collect());
+                }
+            }
+            if text.lines().filter(|l| l.starts_with(&prefix)).count() > 1 {
+                r.display_mismatch = Some(format!("more than one line for {k}"));
+            }
         } else {
             r.in_all_position = r.position;
             r.in_display = r.details.is_some();
@@ -148,8 +161,17 @@ fn other_es_frame(r: &mut Rng, addr: u32, kind: u64, callsigns: &[String]) -> Ve
             encode::me_identification(r.range(1, 4) as u8, r.below(8) as u8, &encode::callsign_chars(&cs))
         }
         1 => {
-            // velocity with derived values
-            encode::me_velocity(r.range(1, 2) as u8, r.below(32) as u8, r.below(2) as u8, r.range(1, 1023) as u16, r.below(2) as u8, r.range(1, 1023) as u16, r.below(2) as u8, r.below(2) as u8, r.range(1, 511) as u16, r.below(2) as u8, r.below(128) as u8)
+            // velocity with derived values; half of them from a small per-aircraft pool, so that
+            // the same track and speed come back with another vertical rate (and vice versa)
+            if r.chance(0.5) {
+                let j = r.below(3) as u32;
+                let ew = 1 + ((addr >> (3 * j)) % 900) as u16;
+                let ns = 1 + ((addr >> (5 + j)) % 900) as u16;
+                let vr = if r.chance(0.5) { 1 + ((addr >> 7) % 500) as u16 } else { r.range(1, 511) as u16 };
+                encode::me_velocity(1 + (j % 2) as u8, r.below(32) as u8, (j & 1) as u8, ew, ((j >> 1) & 1) as u8, ns, r.below(2) as u8, r.below(2) as u8, vr, r.below(2) as u8, r.below(128) as u8)
+            } else {
+                encode::me_velocity(r.range(1, 2) as u8, r.below(32) as u8, r.below(2) as u8, r.range(1, 1023) as u16, r.below(2) as u8, r.range(1, 1023) as u16, r.below(2) as u8, r.below(2) as u8, r.range(1, 511) as u16, r.below(2) as u8, r.below(128) as u8)
+            }
         }
         2 => {
             // velocity report without derived velocity: must not erase or change values
@@ -435,6 +457,10 @@ pub fn gen_marathon(r: &mut Rng) -> History {
             let kind = r.below(2);
             ops.push(Op::Frame(other_es_frame(r, f.addr, kind, &cs)));
         }
+        if k % 700 == 650 {
+            // expiry runs regularly in a client: a survivor (and its long track) must come through untouched
+            ops.push(Op::Prune(*r.pick(&[100_000u64, 3600, u64::MAX])));
+        }
     }
     History { receiver, max_range: 500.0, ops, kind: "marathon" }
 }
@@ -707,7 +733,7 @@ pub fn run(ctx: &Ctx) -> i32 {
             let kind = kinds[(i % 5) as usize];
             // a few busy-sky histories per run (C12: the set only shrinks through expiry)
             let crowd = !with_time && ctx.prop == "C12" && i % 300 == 7;
-            let marathon = !with_time && i % 1500 == 11;
+            let marathon = i % 1500 == 11;
             let counter = !with_time && ctx.prop == "C12" && i % 3000 == 13;
             // C12-C14 also see time pass (and aircraft expire) in every fifth history: a pairing or
             // attribute rule that depends on the clock must not hide behind a frozen one
